@@ -75,8 +75,24 @@ def run_case(ctx, g, rng):
     conv, how = gen.build(api, recs, d, rng)
     S.counters[f"wl:build:{how}"] += 1
     sp = spec.SpecConverter(recs, d)
-    fl = get_flask_app(conv).test_client()
-    fa = TestClient(get_fastapi_app(conv))
+    # "a resolver app built from any converter": through the one-call helpers or - as their documentation describes -
+    # by mounting the blueprint / router on an app of the user's own
+    entry = rng.choice(["app", "app", "mounted"])
+    S.counters[f"wl:entry-point:{entry}"] += 1
+    if entry == "app":
+        fl = get_flask_app(conv).test_client()
+        fa = TestClient(get_fastapi_app(conv))
+    else:
+        import fastapi
+        import flask
+        from curies.resolver_service import get_fastapi_router, get_flask_blueprint
+
+        fapp_ = flask.Flask("users_own_app")
+        fapp_.register_blueprint(get_flask_blueprint(conv))
+        fl = fapp_.test_client()
+        aapp_ = fastapi.FastAPI()
+        aapp_.include_router(get_fastapi_router(conv))
+        fa = TestClient(aapp_, raise_server_exceptions=False)
     known = [p for r in recs for p in spec.all_p(r)]
     w0 = {"records": [spec.rec_dict(r) for r in recs], "delimiter": d}
     late_prefix, late_syn = names.pop(), names.pop()
